@@ -63,7 +63,7 @@ impl C19 {
                 en.push(RoundTrip { level: Level::Query, source: format!("{}({})", name, show_args(&args)), canon: format!("{}({})", name, show_args(&args)) });
             }
         }
-        C19 { enumerated: en, n_rand: if tier == Tier::Quick { 150_000 } else { 2_000_000 }, seed }
+        C19 { enumerated: en, n_rand: if tier == Tier::Quick { 600_000 } else { 5_000_000 }, seed }
     }
     fn pick(&self, idx: u64) -> RoundTrip {
         if (idx as usize) < self.enumerated.len() { return self.enumerated[idx as usize].clone(); }
@@ -178,7 +178,7 @@ impl C20 {
                   "9223372036854775807", "-9223372036854775808", "9223372036854775808", "a-b", "well-known", "3.14.15", "x.y", "1_000", "$X1", "$_1", "_", "%s", "a_b"] {
             texts.push(s.to_string());
         }
-        C20 { texts, n_rand: if tier == Tier::Quick { 50_000 } else { 600_000 }, seed }
+        C20 { texts, n_rand: if tier == Tier::Quick { 250_000 } else { 2_000_000 }, seed }
     }
     fn pick(&self, idx: u64) -> String {
         if (idx as usize) < self.texts.len() { return self.texts[idx as usize].clone(); }
@@ -246,7 +246,7 @@ impl C21 {
     pub fn new(tier: Tier, seed: u64) -> C21 {
         let dir = format!("/verif/work/C21/files_{}", std::process::id());
         std::fs::create_dir_all(&dir).ok();
-        C21 { n: if tier == Tier::Quick { 20_000 } else { 300_000 }, seed, dir }
+        C21 { n: if tier == Tier::Quick { 120_000 } else { 1_000_000 }, seed, dir }
     }
     /// the program as rule texts (one per rule, canonical single-line source)
     fn program(&self, r: &mut Rng) -> Vec<String> {
